@@ -89,14 +89,14 @@ until the context is seen to have ended; `bc - ip < fuel` iterations suffice; th
 theorem src_ipGenerator_loop (a len : Nat) (stop : Nat → Bool) (nid um bc : Nat)
     (hn : nid < 4294967296) (hu : um < 4294967296) (hb : bc < 4294967296) :
     ∀ (fuel ip : Nat) (sent : List Int), ip ≤ bc → bc - ip < fuel →
-      Gen.driver_ipGenerator_loop1 (genEnv a len stop) fuel ⟨sent⟩ (bc : Int) () (ip : Int) () (nid : Int) (um : Int)
+      Gen.driver_ipGenerator_loop1 (genEnv a len stop) fuel ⟨sent⟩ () () (um : Int) (nid : Int) (bc : Int) (ip : Int)
         = some ⟨sendAll stop sent (((List.range' ip (bc - ip)).filter (keep nid um)).map Int.ofNat)⟩ := by
   intro fuel
   induction fuel with
   | zero => intro ip sent _ h; omega
   | succ fuel ih =>
     intro ip sent hle hf
-    refine (Gen.driver_ipGenerator_loop1.eq_2 (genEnv a len stop) ⟨sent⟩ (bc : Int) () (ip : Int) () (nid : Int) (um : Int) fuel).trans ?_
+    refine (Gen.driver_ipGenerator_loop1.eq_2 (genEnv a len stop) ⟨sent⟩ () () (um : Int) (nid : Int) (bc : Int) (ip : Int) fuel).trans ?_
     by_cases hlt : ip < bc
     · have hc : decide ((ip : Int) < (bc : Int)) = true := by simp; omega
       have hip : ip < 4294967296 := by omega
